@@ -7,7 +7,56 @@ import sys
 from collections import Counter
 from fractions import Fraction
 
+import os
+import re
+import time
+
+import vlib
 from vlib import cz, czl, cbool, copt, clist, cpair, cq, cnatl, guarded
+
+GEN = os.path.join(vlib.COQ, "Gen", "C09_gen.v")
+
+
+def regen(repo=None, typecheck=True):
+    """Tie (T): regenerate coq/Gen/C09_gen.v from the working tree's deap/tools/crossover.py and mutation.py
+    (harness/c09_py2coq.py).  A function the translator refuses is emitted as an alias of the model; so is one
+    whose generated definition does not type-check (the translator must never make the build fail on a source
+    it did not understand).  Returns {function: None (regenerated) | refusal text}."""
+    import c09_py2coq
+    repo = repo or vlib.REPO
+    forced = {}
+    for _ in range(len(c09_py2coq.FUNCTIONS) + 1):
+        text, status = c09_py2coq.translate_repo(repo, forced)
+        with vlib.BuildLock():
+            os.makedirs(os.path.dirname(GEN), exist_ok=True)
+            old = open(GEN).read() if os.path.exists(GEN) else None
+            if old != text:
+                with open(GEN, "w") as f:
+                    f.write(text)
+        if not typecheck or all(v is not None for v in status.values()):
+            break
+        ok, out = vlib.make_targets(["Gen/C09_gen.vo"], timeout=1200)
+        for attempt in range(2):
+            if ok or "Error" in out:
+                break
+            time.sleep(10)                       # make died without a Coq error (killed): not a verdict
+            ok, out = vlib.make_targets(["Gen/C09_gen.vo"], timeout=1200)
+        if ok:
+            break
+        m = re.search(r'File "\./Gen/C09_gen\.v", line (\d+)', out)
+        if not m:
+            break                                # the failure is elsewhere: reported by build_props
+        line = int(m.group(1))
+        culprit = None
+        for k, l in enumerate(text.splitlines(), 1):
+            d = re.match(r"Definition gen_(\w+)", l)
+            if d and k <= line:
+                culprit = d.group(1)
+        if culprit is None or culprit in forced or status.get(culprit) is not None:
+            break
+        forced[culprit] = c09_py2coq.Refuse("FunctionDef", "the generated definition does not type-check: %s"
+                                            % " ".join(out[m.end():m.end() + 300].split()))
+    return {k: (None if v is None else str(v)) for k, v in status.items()}
 
 
 # ----------------------------------------------------------------------------
@@ -138,12 +187,11 @@ def ms(*seqs):
     return c
 
 
-def correspond_robust(run, group, module, terms, cases, shard=250, per_call=8, retries=4):
+def correspond_robust(run, group, module, terms, cases, shard=250, per_call=8, retries=4, check="check", requires=()):
     """run.correspond in chunks of `per_call` shards; a chunk in which a coqc process died (the machine
     is shared; coqc gets OOM-killed under load) is re-run instead of being reported as a disagreement.
     Real disagreements (coqc ran and `check` returned false) are never retried or dropped."""
-    import time
-    import vlib
+    failing = []
     old_ncpu = vlib.NCPU
     vlib.NCPU = max(1, min(old_ncpu, per_call))
     total = {"cases": 0, "disagree": 0, "errors": 0}
@@ -155,11 +203,12 @@ def correspond_robust(run, group, module, terms, cases, shard=250, per_call=8, r
             for attempt in range(retries):
                 g = "%s%d" % (group, j // chunk) if attempt == 0 else "%s%dR%d" % (group, j // chunk, attempt)
                 before = len(run.disagreements)
-                run.correspond(g, module, sub_t, sub_c, shard=shard)
+                bad = run.correspond(g, module, sub_t, sub_c, shard=shard, check=check, requires=requires)
                 res = run.corr_groups.pop(g)
                 if res["errors"] == 0 or attempt == retries - 1:
                     for k in total:
                         total[k] += res[k]
+                    failing += [j + i for i in bad]
                     break
                 # a coqc died: nothing of this call counts (vlib adds no traces when a shard errored)
                 del run.disagreements[before:]
@@ -170,6 +219,23 @@ def correspond_robust(run, group, module, terms, cases, shard=250, per_call=8, r
     run.corr_groups[group] = total
     if died:
         run.notes.append("correspondence: %d chunk run(s) repeated because a coqc process died (killed / crashed)" % died)
+    return failing
+
+
+def build_retry(run, **kw):
+    """run.build_props; a coqc/make killed by the OOM killer on the shared machine is not a broken proof:
+    retry.  A genuine failure carries Coq's "Error:" in its log and is reported."""
+    nb, no = len(run.broken), len(run.obligations)
+    ok = run.build_props(**kw)
+    for attempt in range(2):
+        if ok or any("Error:" in (b.get("log") or "") for b in run.broken[nb:]):
+            break
+        run.notes.append("build attempt %d died without a Coq error (killed?), retrying" % (attempt + 1))
+        del run.broken[nb:]
+        del run.obligations[no:]
+        time.sleep(10 * (attempt + 1))
+        ok = run.build_props(**kw)
+    return ok
 
 
 def main(run):
@@ -180,7 +246,8 @@ def main(run):
     run.rule = ("exhaustive: every draw combination (cut points, per-locus swap masks, swap indices, sample pairs, "
                 "inversion indices) for lengths 2..4 (quick) / 2..5 (thorough), equal and unequal lengths, every pair of "
                 "permutations of size <= 3 (quick) / <= 4 (thorough) plus identity x all permutations one size up; "
-                "random: lengths up to 30 with seeded draws, indpb in {0, 1, dyadics, random floats}, scalar and per-gene "
+                "random: lengths up to 30 with seeded draws (plus a few individuals of length 65, 129, 200 per operator), "
+                "indpb in {0, 1, dyadics, random floats}, scalar and per-gene "
                 "bounds incl. low = up and negative, list / array.array / numpy (element-wise operators only) individuals; "
                 "error branches (sizes 0, 1, short bound sequences) and non-permutation inputs of the permutation "
                 "operators are corresponded only. A case is distinct by operator, container kind, inputs and draws; "
@@ -195,18 +262,53 @@ def main(run):
                         "ES individuals: strategy has the length of the individual",
                         "permutation operators: both parents are permutations of 0..n-1 of equal length",
                         "numpy-backed individuals only for element-wise operators (slices of numpy arrays are views)"]
-    ok = run.build_props()
-    for attempt in range(2):
-        # a coqc/make killed by the OOM killer on the shared machine is not a broken proof: retry.
-        # A genuine failure carries Coq's "Error:" in its log and is reported.
-        if ok or any("Error:" in (b.get("log") or "") for b in run.broken):
-            break
-        import time
-        run.notes.append("build attempt %d died without a Coq error (killed?), retrying" % (attempt + 1))
-        del run.broken[:]
-        del run.obligations[:]
-        time.sleep(10 * (attempt + 1))
-        ok = run.build_props()
+    build_retry(run)
+
+    # ---- tie (T): regenerate Gen/C09_gen.v from the working tree, re-prove regenerated = model ----------
+    import c09_py2coq
+    try:
+        status = regen()
+    except Exception as e:  # noqa  (fail closed: a crash of the translator is a refusal of everything)
+        status = {f: "translator error %s: %s" % (type(e).__name__, e) for f in c09_py2coq.FUNCTIONS}
+        try:
+            with vlib.BuildLock():
+                for ext in ("", "o", "ok", "os"):
+                    if os.path.exists(GEN + ext):
+                        os.remove(GEN + ext)
+        except OSError:
+            pass
+    translated = [f for f in c09_py2coq.FUNCTIONS if status.get(f) is None]
+    refused = [(f, status[f]) for f in c09_py2coq.FUNCTIONS if status.get(f) is not None]
+    gen_proved, gen_corr = False, False
+    if translated:
+        gen_proved = build_retry(run, props="Props/C09_gen.v")
+        okc, outc = vlib.make_targets(["Corr/C09_gen.vo"], timeout=1200)
+        if not okc and "Error" not in outc:
+            time.sleep(10)
+            okc, outc = vlib.make_targets(["Corr/C09_gen.vo"], timeout=1200)
+        gen_corr = okc
+        run.trusted += ["translator harness/c09_py2coq.py with its signature table (parameter kinds, result shape) and the "
+                        "run-time library coq/Model/C09_PyRt.v: Python statements -> draw monad, sequence objects as threaded "
+                        "values, aliases, evaluation order of tuple assignments; `%` / `//` by zero not modelled; validated on every "
+                        "run because the regenerated definitions are evaluated against the implementation on every case"]
+    if translated and not refused:
+        tie = "tie: regenerated (%d/%d functions translated from the working-tree source%s)" % (
+            len(translated), len(c09_py2coq.FUNCTIONS),
+            " and proved equal to the model for every input" if gen_proved else
+            "; the equivalence with the model / the theorems on the regenerated definitions NO LONGER CHECK")
+    elif translated:
+        tie = "tie: regenerated for %s%s; correspondence-only for %s" % (
+            ", ".join(translated), "" if gen_proved else " (equivalence / theorems NO LONGER CHECK)",
+            "; ".join("%s (translator refused %s)" % x for x in refused))
+    else:
+        tie = "tie: correspondence-only (translator refused %s)" % "; ".join("%s: %s" % x for x in refused)
+    run.notes.append(tie)
+    run.extra_cov["tie"] = tie
+    run.extra_cov["regenerated_functions"] = translated
+    run.extra_cov["refused_functions"] = dict(refused)
+    if refused and translated:
+        run.notes.append("the theorems of Props/C09_gen.v about %s are about the model alias on this run (not regenerated)"
+                         % ", ".join(f for f, _ in refused))
     rng = run.rng
 
     def mkclass(name, base_, **kw):
@@ -730,6 +832,29 @@ def main(run):
                     up = [max(x, low) for x in up]
             mut_case(op, rng.choice(kinds_elem), p, seed=seed, indpb=rand_pb(), low=low, up=up)
 
+    # ---- long individuals (paths that depend on the size; cheap: a handful per operator)
+    # (permutation genes stay below 257: CPython shares small int objects, and the gene-identity oracle for list
+    #  individuals compares id() multisets, which PMX/OX only keep for shared ints)
+    for n in (65, 129, 200):
+        for rep in range(run.scale(1, 4)):
+            seed = rng.randrange(10 ** 9)
+            q1, q2 = list(range(n)), list(range(n))
+            rng.shuffle(q1)
+            rng.shuffle(q2)
+            g1, g2 = [rng.randint(-9, 9) for _ in range(n)], [rng.randint(-9, 9) for _ in range(n + rep)]
+            for op in ("cxOnePoint", "cxTwoPoint", "cxMessyOnePoint"):
+                cx_case(op, rng.choice(kinds_slice), g1, g2, seed=seed)
+            cx_case("cxUniform", rng.choice(kinds_elem), g1, g2, seed=seed, indpb=rng.choice([0.5, 1.0, 0.9]))
+            es_case(rng.choice(kinds_slice), g1, q1, g2, list(range(len(g2))), seed=seed)
+            for op in ("cxPartialyMatched", "cxOrdered"):
+                cx_case(op, rng.choice(kinds_elem), q1, q2, seed=seed)
+            cx_case("cxUniformPartialyMatched", rng.choice(kinds_elem), q1, q2, seed=seed, indpb=rng.choice([0.5, 1.0, 0.1]))
+            mut_case("mutShuffleIndexes", rng.choice(kinds_elem), q1, seed=seed, indpb=rng.choice([0.5, 1.0, 0.9]))
+            mut_case("mutInversion", rng.choice(kinds_slice), q2, seed=seed)
+            mut_case("mutFlipBit", "list", None, seed=seed, indpb=rng.choice([0.5, 1.0]), genes=[rng.randint(0, 1) for _ in range(n)])
+            mut_case("mutUniformInt", rng.choice(kinds_elem), [0] * n, seed=seed, indpb=rng.choice([0.5, 1.0]), low=-4,
+                     up=[rng.randint(-4, 9) for _ in range(n)])
+
     # ================================================================== hardening round (HARDENING.md)
     EQ = 0.5                                 # a draw equal to the threshold indpb = 0.5 (`<` must not select it)
     TOP = 1.0 - 2.0 ** -53                   # the largest value random() can return
@@ -894,4 +1019,61 @@ def main(run):
             mut_case("mutFlipBit", kind, obj=tgt, seed=rng.randrange(10 ** 9), indpb=0.5)
 
     run.extra_cov["cases_per_operator"] = dict(counters)
-    correspond_robust(run, "ops", "C09", terms, cases)
+    if gen_corr:
+        # one pass evaluates the hand-written model AND the regenerated definitions on every case
+        n_terms = len(terms)
+        failing = correspond_robust(run, "ops", "C09", terms, cases, check="check_both",
+                                    requires=["From DV Require Import Corr.C09_gen."])
+        run.corr_groups["ops"]["evaluated"] = "model and regenerated definitions"
+        if failing:
+            # which of the two disagrees with the implementation?
+            try:
+                sub = failing[:400]
+                nd, ntr = len(run.disagreements), run.traces
+                bm = run.correspond("diagmodel", "C09", [terms[i] for i in sub], [cases[i] for i in sub], check="check")
+                bg = run.correspond("diagregen", "C09", [terms[i] for i in sub], [cases[i] for i in sub], check="check_gen",
+                                    requires=["From DV Require Import Corr.C09_gen."])
+                del run.disagreements[nd:]
+                run.traces = ntr
+                run.notes.append("diagnosis on %d disagreeing cases: the hand-written model disagrees with the implementation on %d, "
+                                 "the regenerated definitions on %d%s%s" % (
+                                     len(sub), len(bm), len(bg),
+                                     " (the source changed meaning: the regenerated definitions follow it, the model does not)"
+                                     if bm and not bg else "",
+                                     " (refused functions are evaluated through their model alias)" if refused else ""))
+                run.extra_cov["diagnosis"] = {"cases": len(sub), "model_disagrees": len(bm), "regenerated_disagrees": len(bg)}
+            except Exception as e:  # noqa
+                run.notes.append("diagnosis step failed: %r" % (e,))
+    else:
+        if translated:
+            run.notes.append("Corr/C09_gen.v did not build: the regenerated definitions were not evaluated")
+        correspond_robust(run, "ops", "C09", terms, cases)
+
+    def search(run):
+        """something no longer checks and no failing input was seen: look harder with the oracle alone
+        (longer individuals than the correspondence uses, more seeds)"""
+        for _ in range(run.scale(1500, 15000)):
+            n1 = rng.choice([2, 3, 5, 8, 31, 64, 65, 100, 101, 130, 257])
+            n2 = n1 if rng.random() < 0.6 else rng.randint(2, 140)
+            seed = rng.randrange(10 ** 9)
+            pb = rng.choice([0.0, 1.0, 0.5, 0.9, rng.random()])
+            for op in ("cxOnePoint", "cxTwoPoint", "cxMessyOnePoint"):
+                cx_case(op, rng.choice(kinds_slice), [rng.randint(-3, 3) for _ in range(n1)],
+                        [rng.randint(-3, 3) for _ in range(n2)], seed=seed)
+            cx_case("cxUniform", rng.choice(kinds_elem), list(range(n1)), list(range(100, 100 + n2)), seed=seed, indpb=pb)
+            es_case(rng.choice(kinds_slice), list(range(n1)), list(range(n1)), list(range(n2)), list(range(n2)), seed=seed)
+            p1, p2 = list(range(n1)), list(range(n1))
+            rng.shuffle(p1)
+            rng.shuffle(p2)
+            for op in ("cxPartialyMatched", "cxOrdered"):
+                cx_case(op, rng.choice(kinds_elem), p1, p2, seed=seed)
+            cx_case("cxUniformPartialyMatched", rng.choice(kinds_elem), p1, p2, seed=seed, indpb=pb)
+            mut_case("mutShuffleIndexes", rng.choice(kinds_elem), p1, seed=seed, indpb=pb)
+            mut_case("mutInversion", rng.choice(kinds_slice), p2, seed=seed)
+            mut_case("mutFlipBit", "list", None, seed=seed, indpb=pb, genes=[rng.randint(0, 1) for _ in range(n1)])
+            lo = rng.randint(-9, 3)
+            mut_case("mutUniformInt", rng.choice(kinds_elem), [0] * n1, seed=seed, indpb=pb, low=lo,
+                     up=[lo + rng.choice([0, 1, 7]) for _ in range(n1)])
+            if run.oracle_viol:
+                return
+    run.search_fn = search
